@@ -466,7 +466,7 @@ def run(ctx: Ctx):
         "A: (a,b) integer sequences: exhaustive up to a small length plus random edit pairs; align/add_x of the implementation vs Model/Align.v evaluated in Coq. "
         "B: flat list/tuple snapshots with canonical and hand-written leaves x new values x flag sets, run through the real code; resulting element texts and reported "
         "categories vs Model/SeqAssign.v; independent oracle: value, verbatim prefix/suffix, survivors >= LCS. C: dict / dataclass / nested lists under fix only (oracle). D: containers whose new elements are == to the old ones but of another type "
-        "(1 vs 1.0 vs True) next to a real change, fix only: the equal elements keep their text. Long sequences (66-110 elements) with an indel between two changes in A. E: flat dict displays (hand-written values) vs edited dicts "
+        "(1 vs 1.0 vs True) next to a real change, fix only: the equal elements keep their text. Long sequences (66-110 elements) with an indel between two changes in A. E: dict displays (hand-written leaves, nested list / tuple values, Is() parts) vs edited dicts "
         "(keys removed / added / reordered, values changed) x subsets of {fix, update}: the entries of the rewritten display in TEXT ORDER vs Model/DictAssign.v. "
         "distinct = distinct (inputs, flags); non-trivial = sequences differ and have >= 2-3 elements")
     ctx.assumptions += ["Python == on the generated element values is integer equality", "asttokens/ast source segments identify element texts"]
@@ -474,30 +474,9 @@ def run(ctx: Ctx):
     corr_align(ctx)
     corr_seq(ctx, 500 if not ctx.thorough else 5000)
     oracle_containers(ctx, 200 if not ctx.thorough else 2000)
-    # E: flat dict displays vs Model/DictAssign.v (entries in text order)
+    # E: dict displays (values: leaves or nested lists / tuples) vs Model/DictAssign.v (entries in text order)
     from .. import dictassign as da
-    ndc = 400 if not ctx.thorough else 5000
-    dcases = [da.gen_case(ctx.rng) for _ in range(ndc)]
-    douts = pmap(da.run_case, dcases, chunksize=8)
-    dterms, didx = [], []
-    for i, (c, o) in enumerate(zip(dcases, douts)):
-        ctx.count(("dict", repr(c)), [(k, v) for k, v, _ in c["olds"]] != c["news"])
-        if o["session_exc"] or "error" in o:
-            ctx.report(f"dict == snapshot: run failed: {o['session_exc'] or o.get('error')}", {"kind": "dict", "case": c})
-            continue
-        why = da.oracle(c, o)
-        if why:
-            ctx.report("C11 oracle (dict display): " + why, {"kind": "dict", "case": c})
-            continue
-        dterms.append(da.g_case(c, o))
-        didx.append(i)
-    dbad = coq_eval_shards(ctx, "dictassign", "Model.SnapOps Model.SeqAssign Model.DictAssign Corr.DictAssignCorr", "case", dterms, "mismatches")
-    ctx.coverage["traces_validated_against_impl"] += len(dterms)
-    ctx.coverage["correspondence"]["dict_assign"] = {"cases": len(dterms), "mismatches": len(dbad)}
-    for j in dbad[:10]:
-        c, o = dcases[didx[j]], douts[didx[j]]
-        ctx.report(f"Model/DictAssign.v and implementation differ (oracle silent): {da.render_old(c)} observed {c['news']} flags {c['flags']} -> {o['arg']}", {"kind": "dict", "case": c},
-                   no_input=True, kind="correspondence")
+    da.check_part(ctx, 400 if not ctx.thorough else 5000, "C11")
     nx = 90 if not ctx.thorough else 900
     xc = [gen_xtype_case(ctx.rng, i) for i in range(nx)]
     for c, o in zip(xc, pmap(run_xtype_case, xc, chunksize=8)):
@@ -537,13 +516,9 @@ def replay(ctx: Ctx, data):
         print(after)
         print("oracle:", why)
         return why is None
-    if k == "dict":
+    if k in ("dict", "dict-orders"):
         from .. import dictassign as da
-        c = case["case"]
-        c = {"olds": [tuple(x) for x in c["olds"]], "news": [tuple(x) for x in c["news"]], "flags": tuple(c["flags"])}
-        o = da.run_case(c)
-        print(o.get("arg"), o.get("error"), o.get("session_exc"))
-        return not o["session_exc"] and "error" not in o and da.oracle(c, o) is None
+        return da.replay_case(case)
     if k == "xtype":
         o = run_xtype_case(case["case"])
         why = xtype_oracle(case["case"], o)
